@@ -16,7 +16,10 @@ func main() {
 		fmt.Fprintln(os.Stderr, "usage: vsym run|check|list ...")
 		os.Exit(2)
 	}
+	envs()
 	switch os.Args[1] {
+	case "check":
+		cmdCheck(os.Args[2:])
 	case "run":
 		cmdRun(os.Args[2:])
 	case "list":
